@@ -289,13 +289,13 @@ theorem reviseUsage_af (F : Facts) (k : Kind) (cost : Cost) (t b : Nat) (c : Cat
   simp only [reviseUsage, hc, Usage.bump?]
   cases c <;> simp_all [Usage.bump, Cost.usage]
 
-theorem revise_inv (F : Facts) (hF : F.ok) (s : State) (cid : Cid) (k : Kind) (cost : Cost) (t b : Nat)
-    (h : Inv1 s) : Inv1 (revise F s cid k cost t b).1 := by
+theorem revise_inv (F : Facts) (hF : F.ok) (s : State) (cid : Cid) (k : Kind) (cost : Cost) (t b : Nat) (wf : Bool)
+    (h : Inv1 s) : Inv1 (revise F s cid k cost t b wf).1 := by
   unfold revise
   split
   · rename_i hg
     simp only [reviseGuard, Bool.and_eq_true, decide_eq_true_eq] at hg
-    obtain ⟨hex, _, hk⟩ := hF
+    obtain ⟨hex, _, hk, _⟩ := hF
     obtain ⟨cat, hcat, hne⟩ := hex k
     apply inv_upd s cid _ h
     · have hc := (h cid).1
@@ -305,15 +305,14 @@ theorem revise_inv (F : Facts) (hF : F.ok) (s : State) (cid : Cid) (k : Kind) (c
     · simp [revised, persist_ok F hk, af_add, reviseUsage_af F k cost t b cat hcat hne]
   · exact h
 
-theorem credit_inv (F : Facts) (hF : F.ok) (s : State) (cid : Cid) (a : Acct) (cost total : Nat) (cm : Bool)
-    (h : Inv1 s) : Inv1 (credit F s cid a cost total cm).1 := by
+theorem credit_inv (F : Facts) (hF : F.ok) (s : State) (cid : Cid) (a : Acct) (cost : Nat) (p : PayRev) (cm : Bool)
+    (h : Inv1 s) : Inv1 (credit F s cid a cost p cm).1 := by
   unfold credit
   split
-  · exact h
-  split
-  · rename_i _ hg
-    obtain ⟨_, hle⟩ := hg
-    obtain ⟨_, hf, hk⟩ := hF
+  · rename_i hg
+    obtain ⟨_, hf, hk, hv⟩ := hF
+    simp only [creditGuard, hv, Bool.and_eq_true, decide_eq_true_eq, Bool.not_true, Bool.false_or] at hg
+    obtain ⟨⟨⟨_, hup, _⟩, hle⟩, _⟩ := hg
     intro x
     simp only [rowsSum_upsert]
     by_cases hx : x = cid
@@ -337,7 +336,7 @@ theorem debit_inv (F : Facts) (hF : F.ok) (s : State) (a : Acct) (u : Usage) (h 
   unfold debit
   split
   · exact h
-  · have hsp := dist_spec F hF.2.2 a s.rows u s.ctr (fun c => (h c).1) (fun c => by rw [(h c).2]; exact Nat.le_refl _)
+  · have hsp := dist_spec F hF.2.2.1 a s.rows u s.ctr (fun c => (h c).1) (fun c => by rw [(h c).2]; exact Nat.le_refl _)
     obtain ⟨hb, hc, he⟩ := hsp
     simp only [hb]
     intro x
@@ -353,7 +352,7 @@ theorem debit_never_panics (F : Facts) (hF : F.ok) (s : State) (a : Acct) (u : U
   unfold debit
   split
   · simp
-  · have hsp := dist_spec F hF.2.2 a s.rows u s.ctr (fun c => (h c).1) (fun c => by rw [(h c).2]; exact Nat.le_refl _)
+  · have hsp := dist_spec F hF.2.2.1 a s.rows u s.ctr (fun c => (h c).1) (fun c => by rw [(h c).2]; exact Nat.le_refl _)
     simp [hsp.1]
 
 theorem finalize_inv (F : Facts) (hF : F.ok) (s : State) (cid : Cid) (b sc cc : Nat) (h : Inv1 s) :
@@ -364,10 +363,10 @@ theorem finalize_inv (F : Facts) (hF : F.ok) (s : State) (cid : Cid) (b sc cc : 
   · apply inv_upd s cid _ h
     · have hc := (h cid).1
       unfold Conserved at *
-      simp only [persist_ok F hF.2.2, revenue_add]
+      simp only [persist_ok F hF.2.2.1, revenue_add]
       simp only [Usage.revenue] at *
       omega
-    · simp [persist_ok F hF.2.2, af_add]
+    · simp [persist_ok F hF.2.2.1, af_add]
   · exact h
 
 theorem cleared_conserved (F : Facts) (hk : F.keepRegistry = true) (c : Contract) (t : Nat)
@@ -398,7 +397,7 @@ theorem renew_inv (F : Facts) (hF : F.ok) (s : State) (old new : Cid) (v3 : Bool
       by_cases hy : x = old
       · subst hy
         simp only [upd_same]
-        exact ⟨cleared_conserved F hF.2.2 _ t (h x).1, by simp [cleared, persist_ok F hF.2.2, af_add, (h x).2]⟩
+        exact ⟨cleared_conserved F hF.2.2.1 _ t (h x).1, by simp [cleared, persist_ok F hF.2.2.1, af_add, (h x).2]⟩
       · simp only [upd_other _ _ _ _ hy]; exact h x
   · exact h
 
@@ -407,9 +406,9 @@ theorem renew_inv (F : Facts) (hF : F.ok) (s : State) (old new : Cid) (v3 : Bool
 theorem step_inv (F : Facts) (hF : F.ok) (s : State) (op : Op) (h : Inv1 s) : Inv1 (step F s op) := by
   cases op with
   | form cid hp mhp vrp price => exact form_inv s cid hp mhp vrp price h
-  | revise cid k cost t b => exact revise_inv F hF s cid k cost t b h
-  | fund cid a cost total => exact credit_inv F hF s cid a cost total true h
-  | pay cid a amount => exact credit_inv F hF s cid a 0 amount false h
+  | revise cid k cost t b wf => exact revise_inv F hF s cid k cost t b wf h
+  | fund cid a cost p => exact credit_inv F hF s cid a cost p true h
+  | pay cid a p => exact credit_inv F hF s cid a 0 p false h
   | debit a u => exact debit_inv F hF s a u h
   | finalize cid b sc cc => exact finalize_inv F hF s cid b sc cc h
   | renew o n v3 t mp hp mhp vrp p st bc => exact renew_inv F hF s o n v3 t mp hp mhp vrp p st bc h
@@ -428,7 +427,7 @@ theorem v1_conservation (F : Facts) (hF : F.ok) (cfg : Settings) (ops : List Op)
   (run_inv F hF ops _ (init_inv cfg) cid).1
 
 theorem current_ok : Facts.current.ok := by
-  refine ⟨?_, rfl, rfl⟩
+  refine ⟨?_, rfl, rfl, rfl⟩
   intro k; cases k
   · exact ⟨.sto, rfl, by decide⟩
   · exact ⟨.egr, rfl, by decide⟩
@@ -469,17 +468,40 @@ theorem v1_rejected_no_change (F : Facts) (s : State) (op : Op) (h : (stepOut F 
 
 /-- an accepted revision raises the host payout by exactly what the renter transferred, and the
 recorded revenue by the same amount -/
-theorem v1_revise_moves (F : Facts) (hF : F.ok) (s : State) (cid : Cid) (k : Kind) (cost : Cost) (t b : Nat)
-    (hok : (revise F s cid k cost t b).2 = .ok) :
-    ((revise F s cid k cost t b).1.ctr cid).vhp = (s.ctr cid).vhp + t ∧
-    ((revise F s cid k cost t b).1.ctr cid).u.revenue = (s.ctr cid).u.revenue + t := by
+theorem v1_revise_moves (F : Facts) (hF : F.ok) (s : State) (cid : Cid) (k : Kind) (cost : Cost) (t b : Nat) (wf : Bool)
+    (hok : (revise F s cid k cost t b wf).2 = .ok) :
+    ((revise F s cid k cost t b wf).1.ctr cid).vhp = (s.ctr cid).vhp + t ∧
+    ((revise F s cid k cost t b wf).1.ctr cid).u.revenue = (s.ctr cid).u.revenue + t := by
   unfold revise at hok ⊢
   split
   · rename_i hg
     simp only [reviseGuard, Bool.and_eq_true, decide_eq_true_eq] at hg
     obtain ⟨cat, hcat, _⟩ := hF.1 k
-    simp [revised, persist_ok F hF.2.2, revenue_add, reviseUsage_revenue F k cost t b cat hcat hg.1.2]
+    simp [revised, persist_ok F hF.2.2.1, revenue_add, reviseUsage_revenue F k cost t b cat hcat hg.1.2]
   · rename_i hg; simp [hg] at hok
+
+/-- a request that fails the non-monetary checks (empty or out-of-range sector-roots range, Merkle
+proof requested for an `update`, patched sector whose root the host does not store) is refused: no
+revenue is recorded and the revision stays -/
+theorem v1_illformed_refused (F : Facts) (s : State) (cid : Cid) (k : Kind) (cost : Cost) (t b : Nat) :
+    revise F s cid k cost t b false = (s, .reject) := by
+  simp [revise, reviseGuard]
+
+example : rootsWF 3 0 0 = false ∧ rootsWF 3 2 2 = false ∧ rootsWF 3 4 0 = false ∧ rootsWF 3 1 2 = true := by decide
+example : writeWF true true true = false ∧ writeWF false true false = false ∧ writeWF false true true = true ∧
+          writeWF true false false = true := by decide
+
+/-- a payment revision that does not hand the host exactly what it takes from the renter is refused
+(`ValidatePaymentRevision`), as is a fund-account payment below the cost of the RPC -/
+theorem v1_skewed_payment_refused (F : Facts) (hv : F.validatePay = true) (s : State) (cid : Cid) (a : Acct)
+    (cost : Nat) (p : PayRev) (cm : Bool) (h : p.up ≠ p.total ∨ p.mup ≠ p.total ∨ p.total < cost) :
+    credit F s cid a cost p cm = (s, .reject) := by
+  unfold credit
+  split
+  · rename_i hg
+    simp only [creditGuard, hv, Bool.and_eq_true, decide_eq_true_eq, Bool.not_true, Bool.false_or] at hg
+    omega
+  · rfl
 
 /-! ### non-vacuity: a history exercising every operation, accepted -/
 
@@ -490,13 +512,13 @@ def demoOps : List Op :=
     .revise 0 .write { base := 1, sto := 20, ing := 4, coll := 30 } 125 25,   -- over-pays by 100
     .revise 0 .read { base := 1, egr := 8 } 9 0,
     .revise 0 .roots { base := 1, egr := 2 } 1003 0,                           -- over-pays by 1000
-    .fund 0 7 1 501,
-    .pay 0 8 300,
+    .fund 0 7 1 (.exact 501),
+    .pay 0 8 (.exact 300),
     .debit 8 { rpc := 5, sto := 50, rr := 20, rw := 30 },
     .debit 7 { rpc := 1, egr := 99, ing := 100 },
     .finalize 0 40 20 25,
     .renew 0 1 false 17 1 900 700 4000 10 150 80,
-    .fund 1 7 1 101,
+    .fund 1 7 1 (.exact 101),
     .debit 7 { rpc := 300, sto := 50 },          -- spends funding of the cleared AND the new contract
     .renew 1 2 true 0 0 800 800 3000 10 200 0 ]
 
@@ -534,7 +556,7 @@ def Facts.preRegistryFix : Facts := { Facts.current with keepRegistry := false }
 part: the unspent funding drops by 3, the recorded revenue rises by 1 (DESIGN §5 finding 9). -/
 theorem registry_dropped_breaks :
     ¬ Conserved ((run Facts.preRegistryFix (init demoCfg)
-        [.form 0 1000 1000 5000 10, .fund 0 7 1 11, .debit 7 { rpc := 1, rr := 2 }]).ctr 0) := by
+        [.form 0 1000 1000 5000 10, .fund 0 7 1 (.exact 11), .debit 7 { rpc := 1, rr := 2 }]).ctr 0) := by
   decide
 
 /-- a routing where the deposit is not recorded as account funding -/
@@ -544,7 +566,17 @@ def Facts.dropFunding : Facts := { Facts.current with fundAf := false }
 funding an account breaks conservation (payout +11, revenue +1). -/
 theorem funding_dropped_breaks :
     ¬ Conserved ((run Facts.dropFunding (init demoCfg)
-        [.form 0 1000 1000 5000 10, .fund 0 7 1 11]).ctr 0) := by
+        [.form 0 1000 1000 5000 10, .fund 0 7 1 (.exact 11)]).ctr 0) := by
+  decide
+
+/-- a tree whose RHP3 payment paths sign without `ValidatePaymentRevision` -/
+def Facts.noPaymentValidation : Facts := { Facts.current with validatePay := false }
+
+/-- **Negative.** Without the validation a renter can take 11 H out of its payout, hand the host
+only 10 H, and still get the full amount credited: recorded revenue exceeds the money that moved. -/
+theorem payment_unvalidated_breaks :
+    ¬ Conserved ((run Facts.noPaymentValidation (init demoCfg)
+        [.form 0 1000 1000 5000 10, .fund 0 7 1 { total := 11, up := 10, mup := 11 }]).ctr 0) := by
   decide
 
 /-! ## C10, v2 -/
